@@ -1,31 +1,50 @@
 ------------------------------ MODULE ProxyHdr ------------------------------
 (* C47 -- PROXY protocol headers are parsed regardless of segmentation.
 
-   A stream is described abstractly by cfg (chosen by TLC in the exhaustive run, by the generator
-   in conformance runs, which also concretises it to bytes):
+   A stream is described abstractly by cfg: the fields of its (would-be) header as they stand in
+   the bytes -- lexed from the real bytes by the adapter in conformance runs, enumerated by TLC in
+   the exhaustive run -- and THIS MODULE classifies it as valid / invalid following the PROXY
+   protocol specification (v1 section 2.1, v2 section 2.2):
 
-     valid    the stream begins with a valid PROXY v1/v2 header
-     hlen     valid: length of that header in bytes (v1: through CRLF; v2: 16 + declared length)
-     hasaddr  valid: the header carries addresses the receiver must use (PROXY command with a
-              specified family/protocol); otherwise (LOCAL, UNKNOWN, UNSPEC) the real ones stay
-     src,dst  the header's addresses   rpeer,rhost  the underlying transport's addresses
-     bad      invalid: position of the first byte after which the prefix is no valid header's prefix
-     dec      invalid: position by which any receiver has the whole offending line / declared block
-              (v1: end of line, or 108 when no CRLF shows up; v2: 16 or 16 + declared length)
-     payload  valid: the application bytes following the header
+     ver      2: first byte is the first byte of the v2 signature; 1: first byte is "P"; 0: neither
+     v2       [sigbad  position (1..12) of the first byte differing from the signature, 0 if intact
+               vn, cn  version and command nibbles of byte 13
+               fn, pn  family and protocol nibbles of byte 14
+               len     declared length (bytes 15-16)]
+     v1       [w       position (1..6) of the first byte differing from "PROXY ", 0 if intact
+               line    length of the first line including its CRLF, 0 if the stream has no CRLF
+               toks    the space-separated tokens after "PROXY ", each [cls, pos]; cls is one of
+                       "TCP4" "TCP6" "UNKNOWN" (exact words), "ip4" "ip6" (a well-formed address of
+                       that family), "port" (decimal 0..65535), "empty", "junk"; pos = position of
+                       its first byte]
+     src,dst  the addresses the header carries (text), rpeer,rhost the underlying transport's
+     rest     the bytes following the header's structural end (16 + len / the CRLF)
      total    length of the whole stream
 
+   Classification:
+     v2 valid  iff signature intact, version 2, command LOCAL(0) or PROXY(1), and for PROXY: family in
+               0..3, protocol in 0..2 ("other values ... must be rejected as invalid by receivers"),
+               and, when both are specified, len >= the family's address block (12 / 36 / 216).
+               LOCAL: everything after the command is ignored.  Addresses are used only for PROXY
+               with family and protocol both specified; otherwise the real endpoints stay.
+     v1 valid  iff "PROXY " intact, CRLF within the first 107 bytes, and either the protocol word is
+               UNKNOWN (rest of the line ignored) or it is TCP4/TCP6 followed by exactly four
+               single-space-separated fields: two addresses of that family and two ports ("any sequence
+               which does not exactly match the protocol must be discarded and cause the receiver to
+               abort the connection").
+     Bad       invalid: position of the first byte after which the prefix can be refused (start of
+               the first offending field; never later than where refusal becomes certain)
+     Dec       invalid: position by which any receiver holds the whole offending line / declared block
+
    The property, as a relation between the consumed prefix and what the wrapped protocol has seen:
-     valid  : never closed; application bytes seen = the payload bytes consumed so far, nothing before
-              the header is complete; once it is complete getPeer/getHost give the header's addresses
-              (or the real ones when the header carries none)
-     invalid: the application never sees a byte; the connection is closed at the latest when `dec`
-              bytes have been consumed, and not before the `bad` byte has been consumed (a prefix
-              that can still become a valid header must not be refused).  Timing in between is free.
+     valid  : never closed; application bytes = the `rest` bytes consumed so far, none before the header
+              is complete; once complete getPeer/getHost give the header's addresses (or the real ones)
+     invalid: the application never sees a byte; closed at the latest when Dec bytes are consumed and not
+              before the Bad byte has been consumed.  Timing in between is free.
    Nothing is delivered after the close request (the harness stops, as a TCP transport does).
 
-   `Machine` below is an incremental wrapper design (Undecided / V1 / V2 / Passthrough / Closed) that
-   buffers until it can decide; TLC checks it against the relation for every segmentation.        *)
+   `Machine` is an incremental wrapper design (undecided / v1 / v2 / pass / closed) that buffers until it
+   can decide; TLC checks it against the relation for every segmentation.                          *)
 EXTENDS Naturals, Integers, Sequences, FiniteSets
 
 VARIABLES cfg,
@@ -43,44 +62,83 @@ InitWith(c) ==
 
 Min(a, b) == IF a < b THEN a ELSE b
 Max(a, b) == IF a > b THEN a ELSE b
+SetMin(S) == CHOOSE x \in S : \A y \in S : x <= y
 
+-----------------------------------------------------------------------------
+(* Classification, version 2 *)
+V2 == cfg.v2
+AddrLen(fn) == CASE fn = 1 -> 12 [] fn = 2 -> 36 [] fn = 3 -> 216 [] OTHER -> 0
+V2Specified == V2.fn \in 1..3 /\ V2.pn \in 1..2
+V2Bad == IF V2.sigbad > 0 THEN V2.sigbad
+         ELSE IF V2.vn # 2 THEN 13
+         ELSE IF V2.cn \notin {0, 1} THEN 13
+         ELSE IF V2.cn = 0 THEN 0
+         ELSE IF V2.fn \notin 0..3 \/ V2.pn \notin 0..2 THEN 14
+         ELSE IF V2Specified /\ V2.len < AddrLen(V2.fn) THEN 16
+         ELSE 0
+V2Dec == IF V2.sigbad > 0 \/ V2.vn # 2 THEN 16 ELSE 16 + V2.len
+
+(* Classification, version 1 *)
+V1 == cfg.v1
+NT == Len(V1.toks)
+Cls(j) == V1.toks[j].cls
+Overlong == V1.line = 0 \/ V1.line > 107
+AddrCls(p) == IF p = "TCP4" THEN "ip4" ELSE "ip6"
+Want(p) == <<p, AddrCls(p), AddrCls(p), "port", "port">>
+\* index of the first offending token; NT + 1 when a token is missing; 0 when the tokens are right
+V1BadTok ==
+    IF NT = 0 THEN 1
+    ELSE IF Cls(1) = "UNKNOWN" THEN 0
+    ELSE IF Cls(1) \notin {"TCP4", "TCP6"} THEN 1
+    ELSE LET mism == {j \in 2..5 : IF j > NT THEN TRUE ELSE Cls(j) # Want(Cls(1))[j]} IN
+         IF mism # {} THEN Min(SetMin(mism), NT + 1) ELSE IF NT > 5 THEN 6 ELSE 0
+TokPos(j) == IF j <= NT THEN V1.toks[j].pos ELSE IF V1.line > 0 THEN V1.line - 1 ELSE 106
+V1Bad == IF V1.w > 0 THEN V1.w
+         ELSE LET tb == IF V1BadTok = 0 THEN 0 ELSE TokPos(V1BadTok) IN
+              IF Overlong THEN (IF tb > 0 THEN Min(tb, 106) ELSE 106) ELSE tb
+V1Dec == IF Overlong THEN 108 ELSE V1.line
+
+Bad     == CASE cfg.ver = 2 -> V2Bad [] cfg.ver = 1 -> V1Bad [] OTHER -> 1
+Dec     == CASE cfg.ver = 2 -> V2Dec [] cfg.ver = 1 -> V1Dec [] OTHER -> 16
+Valid   == Bad = 0
+HLen    == IF cfg.ver = 2 THEN 16 + V2.len ELSE V1.line
+HasAddr == IF cfg.ver = 2 THEN V2.cn = 1 /\ V2Specified ELSE (cfg.ver = 1 /\ NT >= 1 /\ Cls(1) \in {"TCP4", "TCP6"})
+
+-----------------------------------------------------------------------------
 \* payload bytes lying in stream positions (a, b]  (positions counted from 1, header first)
 PayloadBetween(a, b) ==
-    IF b <= cfg.hlen THEN <<>>
-    ELSE SubSeq(cfg.payload, Max(a, cfg.hlen) - cfg.hlen + 1, b - cfg.hlen)
+    IF b <= HLen THEN <<>>
+    ELSE SubSeq(cfg.rest, Max(a, HLen) - HLen + 1, b - HLen)
 
-ExpPeer == IF cfg.hasaddr THEN cfg.src ELSE cfg.rpeer
-ExpHost == IF cfg.hasaddr THEN cfg.dst ELSE cfg.rhost
+ExpPeer == IF HasAddr THEN cfg.src ELSE cfg.rpeer
+ExpHost == IF HasAddr THEN cfg.dst ELSE cfg.rhost
 
 (* what may be observed after the prefix of length n has been consumed: app = bytes given to the
    application during the step from m to n, cl = close requested by then *)
 StepOK(m, n, app, cl) ==
-    IF cfg.valid
+    IF Valid
     THEN app = PayloadBetween(m, n) /\ ~cl
     ELSE /\ app = <<>>
-         /\ (cl => n >= cfg.bad)
-         /\ (n >= cfg.dec => cl)
+         /\ (cl => n >= Bad)
+         /\ (n >= Dec => cl)
 
-AddrOK(n, peer, host) == (cfg.valid /\ n >= cfg.hlen) => (peer = ExpPeer /\ host = ExpHost)
+AddrOK(n, peer, host) == (Valid /\ n >= HLen) => (peer = ExpPeer /\ host = ExpHost)
 
 -----------------------------------------------------------------------------
-(* Design machine.  It sees the stream only through what a parser can know after n bytes:
-   - whether the first n bytes still match a signature (n < bad, or the stream is valid)
-   - which signature it is (cfg.ver) once enough bytes are there (v2: 12 of 16, v1: 5 of 8)
-   - the end of the header (hlen / dec). *)
+(* Design machine.  It sees the stream only through what a parser can know after n bytes. *)
 SigLen == IF cfg.ver = 2 THEN 16 ELSE 6     \* bytes needed to commit to a version: v2 fixed part, "PROXY "
 
 MachineStep(st, n) ==          \* state after having buffered n bytes in total, starting from st
     CASE st = "undecided" ->
-            IF ~cfg.valid /\ cfg.bad <= SigLen /\ n >= cfg.bad THEN "closed"      \* signature mismatch seen
+            IF ~Valid /\ Bad <= SigLen /\ n >= Bad THEN "closed"      \* mismatch in the fixed part seen
             ELSE IF n < SigLen THEN "undecided"
             ELSE IF cfg.ver = 2 THEN "v2" ELSE "v1"
       [] OTHER -> st
 
 MachineSettle(st, n) ==        \* header-level decision once committed to a version
     IF st \in {"v1", "v2"}
-    THEN IF cfg.valid THEN (IF n >= cfg.hlen THEN "pass" ELSE st)
-         ELSE (IF n >= cfg.dec THEN "closed" ELSE st)
+    THEN IF Valid THEN (IF n >= HLen THEN "pass" ELSE st)
+         ELSE (IF n >= Dec THEN "closed" ELSE st)
     ELSE st
 
 MachineNext(st, n) == MachineSettle(MachineStep(st, n), n)
@@ -91,7 +149,7 @@ Deliver(k, cl) ==
     /\ ~closed
     /\ k \in 1..(cfg.total - consumed)
     /\ LET n == consumed + k
-           app == IF cfg.valid THEN PayloadBetween(consumed, n) ELSE <<>> IN
+           app == IF Valid THEN PayloadBetween(consumed, n) ELSE <<>> IN
          /\ StepOK(consumed, n, app, cl)
          /\ consumed' = n
          /\ delivered' = delivered \o app
@@ -101,17 +159,19 @@ Deliver(k, cl) ==
     /\ UNCHANGED cfg
 
 -----------------------------------------------------------------------------
-DeliveredOK == IF cfg.valid THEN delivered = PayloadBetween(0, consumed) ELSE delivered = <<>>
-ClosedOK    == /\ (cfg.valid => ~closed)
-               /\ (closed => ~cfg.valid /\ consumed >= cfg.bad)
-               /\ ((~cfg.valid /\ consumed >= cfg.dec) => closed)
-\* the buffering design stays inside the relation: it has closed only when allowed, must have closed
-\* when required, and passes data through exactly when the header is complete
-MachineOK   == /\ (mst = "closed" => ~cfg.valid /\ consumed >= cfg.bad)
-               /\ ((~cfg.valid /\ consumed >= cfg.dec) => mst = "closed")
-               /\ (mst = "pass" <=> (cfg.valid /\ consumed >= cfg.hlen))
-CfgOK       == /\ (cfg.valid => cfg.total = cfg.hlen + Len(cfg.payload) /\ cfg.hlen >= 8)
-               /\ (~cfg.valid => cfg.bad >= 1 /\ cfg.dec >= cfg.bad)
+DeliveredOK == IF Valid THEN delivered = PayloadBetween(0, consumed) ELSE delivered = <<>>
+ClosedOK    == /\ (Valid => ~closed)
+               /\ (closed => ~Valid /\ consumed >= Bad)
+               /\ ((~Valid /\ consumed >= Dec) => closed)
+\* the buffering design stays inside the relation
+MachineOK   == /\ (mst = "closed" => ~Valid /\ consumed >= Bad)
+               /\ ((~Valid /\ consumed >= Dec) => mst = "closed")
+               /\ (mst = "pass" <=> (Valid /\ consumed >= HLen))
+\* the descriptor is coherent (self-check of lexer / enumeration)
+CfgOK       == /\ cfg.ver \in {0, 1, 2}
+               /\ (Valid => cfg.total = HLen + Len(cfg.rest) /\ HLen >= 8)
+               /\ (~Valid => Bad >= 1 /\ Dec >= Bad)
+               /\ (cfg.ver = 1 /\ V1.line = 0 => cfg.total >= 108)
 
 Inv == DeliveredOK /\ ClosedOK /\ CfgOK
 =============================================================================
